@@ -31,12 +31,12 @@ TRACE_TLA = os.path.join(SPECDIR, "StreamTrace.tla")
 TRACE_CFG = os.path.join(SPECDIR, "StreamTrace.cfg")
 INVS = ["Inv_Stream", "Inv_WirePrefix", "Inv_Read", "Inv_Types", "Inv_NoStuck"]
 DEVS = ["Dev_PartialTailToBack", "Dev_KeepWrittenPrefix", "Dev_NoRearmAfterShortSend", "Dev_StopReadAfterShort",
-        "Dev_LtStopsAfterOneChunk", "Dev_IoSendBypassesQueue", "Dev_DirectWriteIgnoresQueue"]
+        "Dev_LtStopsAfterOneChunk", "Dev_IoSendBypassesQueue", "Dev_DirectWriteIgnoresQueue", "Dev_DrainAfterSwap"]
 def temporal_violated(out):
     return bool(re.search(r"Temporal propert(y \w+ was|ies were) violated", out))
 
 
-IO_ACTIONS = ["ProcessClose", "DoSendDropClosed", "DoSendHandshakeQueue", "DoSendDirect", "DoSendEagain", "DoSendError",
+IO_ACTIONS = ["WakeEvt", "DrainEvt", "SwapCmds", "ProcDone", "ProcessClose", "DoSendDropClosed", "DoSendHandshakeQueue", "DoSendDirect", "DoSendEagain", "DoSendError",
               "QueueBack", "BackpressureClose", "EpollOutFires", "WpEmpty", "WritePendingError", "WritePendingEagain",
               "WritePendingFull", "WritePendingPartial", "HandshakeDone", "EpollInFires", "Recv", "SslRead", "RecvEagain", "RecvZero",
               "CbSend", "CbReturn"]
@@ -78,6 +78,20 @@ def project(labels):
     exactly the state 'accepted by other threads, not yet dispatched' the behaviour is in; CbReturn = RELEASE."""
     steps, names, pending = [], [], []
     gate_pending, parked = None, False
+    # eventfd wake-ups with an AppSend landing between the wake-up and the end of {drain, swap}: the driver parks the I/O
+    # thread at its eventfd read (PARKEV), issues the commands that cause the wake-up, then the ones landing in the window
+    lab_names = [vf.label_thread(x)[0] for x in labels]
+    window_at = set()
+    for i, nm in enumerate(lab_names):
+        if nm == "WakeEvt":
+            done, j = 0, i + 1
+            while j < len(lab_names) and done < 2:
+                if lab_names[j] in ("DrainEvt", "SwapCmds"):
+                    done += 1
+                elif lab_names[j] == "AppSend":
+                    window_at.add(i)
+                j += 1
+    evpark, evdone = False, 0
 
     def park():
         nonlocal gate_pending, parked
@@ -87,12 +101,24 @@ def project(labels):
             if st and st.startswith("SEND"):
                 steps.append(st)
                 pending[k] = None
-    for lab in labels:
+    for li, lab in enumerate(labels):
         name, args = vf.label_thread(lab)
         names.append(name)
+        if name == "WakeEvt" and li in window_at and not parked and any(st and st.startswith("SEND") for st in pending):
+            steps.append("PARKEV")
+            for k, st in enumerate(pending):
+                if st and st.startswith("SEND"):
+                    steps.append(st)
+                    pending[k] = None
+            evpark, evdone = True, 0
+        elif name in ("DrainEvt", "SwapCmds") and evpark:
+            evdone += 1
+            if evdone == 2:
+                steps.append("RELEASE")
+                evpark = False
         if name in ("AppSend", "AppClose"):
             st = ENV_STEP[name].format(*args)
-            if parked and name == "AppSend":
+            if (parked or evpark) and name == "AppSend":
                 steps.append(st)
                 pending.append(None)
             else:
@@ -120,7 +146,7 @@ def project(labels):
             raise vf.Infra("unknown Impl action in behaviour: " + lab)
     if gate_pending:
         park()
-    if parked:
+    if parked or evpark:
         steps.append("RELEASE")
     return steps + [st for st in pending if st], names
 
@@ -264,6 +290,17 @@ def directed_cases(thorough):
                 out.append((seq_case(steps, 0, k, scale=1, pcut=0, extra="fake=0 sndbuf=%d rcvbuf=%d" % (sb, sb),
                                      force={"batch": batch, "role": role, "et": 1 if k % 3 else 0, "wq": 64}), "overtake-real"))
                 k += 1
+    # (d) the eventfd wake-up: two (three) threads send while the I/O thread is parked at its eventfd read - the first send wakes
+    #     it up, the others land between the wake-up and the drain/swap - then NO further traffic and no command of any kind
+    #     (instances of the TLC counterexample of Dev_DrainAfterSwap: AppSend WakeEvt SwapCmds AppSend DrainEvt ...)
+    for tls in (0, 1):
+        for batch in (0, 1):
+            for role in ("srv", "cli"):
+                for sh in (["SEND t2 1", "SEND t3 2"], ["SEND t2 2", "SEND t3 1", "SEND t4 1"], ["SEND t1 1", "SEND t2 1"]):
+                    pre = (["HSDONE"] if tls else []) + ["DRAIN 40"]
+                    out.append((seq_case(pre + ["PARKEV"] + sh + ["RELEASE"], tls, k, scale=[1, 1000, 9000][k % 3], pcut=0,
+                                         force={"batch": batch, "role": role, "et": 1 if k % 4 else 0, "wq": 64}), "lost-wakeup"))
+                    k += 1
     return out
 
 
@@ -309,7 +346,7 @@ def run(ck):
     def job_live(tls):
         c = consts(Tls=bool(tls), MaxSends=2, AllowClose=False) if tls < 2 else \
             consts(Tls=True, ET=False, MaxSends=1, MaxLen=1, PeerBytes=3, Chunk=1, RecMax=2, AllowClose=False)
-        return vf.run_tlc(IMPL, cfg_file(ck, "live%d" % tls, c, spec="FairSpec", invariants=INVS, properties=["Live_Write", "Live_Read"]),
+        return vf.run_tlc(IMPL, cfg_file(ck, "live%d" % tls, c, spec="FairSpec", invariants=INVS, properties=["Live_Write", "Live_Read", "Live_Cmd"]),
                           tag="C01_live%d" % tls, workers=3, timeout=1500)
 
     RD = dict(MaxSends=1, MaxLen=1, PeerBytes=3, Chunk=1, RecMax=2, AllowClose=False)
@@ -317,16 +354,18 @@ def run(ck):
     # per deviation: model constants, and how its counterexample is run on the code (tls, extra case keys, forced matrix cell)
     DEV_CFG = {"Dev_LtStopsAfterOneChunk": (dict(Tls=True, ET=False, **RD), 1, rd_extra, {"et": 0}),
                "Dev_IoSendBypassesQueue": (dict(AllowCb=True, AllowClose=False, MaxSends=2), 0, "", None),
-               "Dev_DirectWriteIgnoresQueue": (dict(MaxSends=2, AllowClose=False), 0, "", None)}
+               "Dev_DirectWriteIgnoresQueue": (dict(MaxSends=2, AllowClose=False), 0, "", None),
+               "Dev_DrainAfterSwap": (dict(MaxSends=2, AllowClose=False), 0, "", None)}
 
     def job_dev(flag):
         c = consts(**dict(DEV_CFG[flag][0], **{flag: True})) if flag in DEV_CFG else consts(MaxSends=2, PeerBytes=2, MaxRcut=2, **{flag: True})
         cex = os.path.join(ck.work, "cex_%s.json" % flag)
         return vf.run_tlc(IMPL, cfg_file(ck, "dev_" + flag, c, invariants=INVS), tag="C01_" + flag, workers=1, dump_trace=cex)
 
-    def job_devlive():
-        c = consts(MaxSends=2, AllowClose=False, Dev_NoRearmAfterShortSend=True)
-        return vf.run_tlc(IMPL, cfg_file(ck, "devlive", c, spec="FairSpec", properties=["Live_Write"]), tag="C01_devlive", workers=2)
+    def job_devlive(which=0):
+        c = consts(MaxSends=2, AllowClose=False, **{["Dev_NoRearmAfterShortSend", "Dev_DrainAfterSwap"][which]: True})
+        return vf.run_tlc(IMPL, cfg_file(ck, "devlive%d" % which, c, spec="FairSpec", properties=[["Live_Write", "Live_Cmd"][which]]),
+                          tag="C01_devlive%d" % which, workers=2, timeout=900)
 
     # generation graphs (dumped; also the coverage self-test): G1 = two sends with reads and closes, G2 = three sends against
     # a nearly full kernel (reaches QueueBack and the backpressure close with maxWriteQueue = 2)
@@ -349,11 +388,13 @@ def run(ck):
         f_live = {t: ex.submit(job_live, t) for t in (0, 1, 2)}     # 2 = TLS, level-triggered, chunk < record
         f_dev = {f: ex.submit(job_dev, f) for f in DEVS}
         f_devlive = ex.submit(job_devlive)
+        f_devlive2 = ex.submit(job_devlive, 1)
         f_gen = {(t, gname): ex.submit(job_gen, (t, gname)) for t in (0, 1) for gname in GEN}
         r_mc = [(j, f.result()) for j, f in f_mc]
         r_live = {t: f.result() for t, f in f_live.items()}
         r_dev = {k: f.result() for k, f in f_dev.items()}
         r_devlive = f_devlive.result()
+        r_devlive2 = f_devlive2.result()
         r_gen = {t: f.result() for t, f in f_gen.items()}
 
     for (name, c, cov), r in r_mc:
@@ -406,7 +447,11 @@ def run(ck):
         seq.append((ptls, steps, names, "probe", pextra, pforce))
     if not temporal_violated(r_devlive.out):
         raise vf.Infra("self-test: FairSpec with Dev_NoRearmAfterShortSend=TRUE should violate Live_Write: " + (r_devlive.error or "")[-400:])
+    if not temporal_violated(r_devlive2.out):
+        raise vf.Infra("self-test: FairSpec with Dev_DrainAfterSwap=TRUE should violate Live_Cmd (lost wake-up): " + (r_devlive2.error or "")[-400:])
     ck.sample({"kind": "TLC counterexample of Dev_PartialTailToBack, replayed on the real engine", "steps": seq[0][1]})
+    ck.sample({"kind": "TLC counterexample of Dev_DrainAfterSwap (lost eventfd wake-up), replayed with the I/O thread parked at its eventfd read",
+               "steps": seq[len(DEVS) - 1][1]})
 
     # ---- 3. behaviours from the state graphs ------------------------------------------------------------------------------
     for (tls, gname), (r, dot) in r_gen.items():
@@ -457,7 +502,7 @@ def run(ck):
         cases.append((line, kind, True))
     ck.note("cases: %d behaviours, %d sweep cases, %d concurrent stress cases, %d directed cases (%s)" % (
         len(seq), len(sw), len(cc), len(dc), ", ".join("%d %s" % (sum(1 for _, k in dc if k == kind), kind)
-                                                      for kind in ("cb-connect", "read-chunk", "overtake-fake", "overtake-real"))))
+                                                      for kind in ("cb-connect", "read-chunk", "overtake-fake", "overtake-real", "lost-wakeup"))))
     ck.sample({"kind": "sweep case", "case": cases[len(seq) + len(sw) // 2][0]})
     ck.sample({"kind": "concurrent stress case", "case": cc[0]})
 
@@ -465,6 +510,12 @@ def run(ck):
     ck.evaluations += len(execs)
     ck.nontrivial = len(set(c[0] for c in cases if c[2]))
     ck.sample({"kind": "recorded execution", "case": cases[3][0], "events": execs[3][1][:14]})
+    # self-test: the eventfd window is really entered (the driver notes when the I/O thread is parked at its eventfd read)
+    pe = [i for i, c in enumerate(cases) if " PARKEV " in c[0]]
+    hit = sum(1 for i in pe if any(e["e"] == "Note" and e.get("what") == "parked-at-eventfd-read" for e in execs[i][1]))
+    ck.note("eventfd window: %d cases with PARKEV, the I/O thread was parked at its eventfd read in %d of them" % (len(pe), hit))
+    if len(pe) < 10 or hit * 2 < len(pe):
+        raise vf.Infra("self-test: the window between the eventfd wake-up and the drain was entered in only %d of %d PARKEV cases" % (hit, len(pe)))
     rejected = judge(ck, cases, execs, "tcp")
     oracle_selftest(ck, cases, execs, rejected)
 
